@@ -164,7 +164,7 @@ func init() {
 			}
 			return 8
 		},
-		Cases:       func(r *obs.Run) int { return r.Share(r.Pick(1200, 12000)) },
+		Cases:       func(r *obs.Run) int { return r.Share(r.Pick(3000, 12000)) },
 		Case:        c14Case,
 		MinDistinct: func(t string) int { return 300 },
 		Floors: func(string) map[string]int64 {
